@@ -14,6 +14,7 @@ pub mod c15;
 pub mod c16;
 pub mod c17;
 pub mod clonefam;
+pub mod preserve;
 pub mod xself;
 
 pub const REGISTRY: &[(&str, PropFn)] = &[
